@@ -172,23 +172,29 @@ class Harness:
             return
         gd = self.gd
         lp = self.listing_file(fmt_listing(self.DECOY_LISTING))
-        # 1. one failing operation (round robin); its exception is expected and swallowed
-        doc, has_input = self.FAILING_DECOYS[(self._decoys // max(1, self.decoy_every)) % len(self.FAILING_DECOYS)]
+        n = self._decoys // max(1, self.decoy_every)
+        doc, has_input = self.FAILING_DECOYS[n % len(self.FAILING_DECOYS)]
         fp = self.write(f"decoyfail_{os.getpid()}.yaml", yaml.safe_dump(doc, sort_keys=False))
-        try:
-            self.MasterOfPuppets(gd.MatchConfig(pattern_pathstr=fp, input_file=lp if has_input else self.path("nosuchinput.s"),
-                                                return_mode=gd.MatchingReturnMode.matched_addrs_list,
-                                                matching_mode=gd.MatchingSearchMode.all_finds)).perform_matching()
-        except Exception:  # noqa
-            pass
-        # 2. the polluting operation
         rp = self.write(f"decoy_{os.getpid()}.yaml", yaml.safe_dump(self.DECOY_RULE, sort_keys=False))
-        cfg = gd.MatchConfig(pattern_pathstr=rp, input_file=lp, return_mode=gd.MatchingReturnMode.matched_addrs_list,
-                             matching_mode=gd.MatchingSearchMode.all_finds)
-        try:
-            self.MasterOfPuppets(cfg).perform_matching()
-        except Exception:  # noqa  (the decoy itself misbehaving under a seeded change is not a verdict of this check)
-            pass
+
+        def failing():      # one failing operation (round robin); its exception is expected and swallowed
+            try:
+                self.MasterOfPuppets(gd.MatchConfig(pattern_pathstr=fp, input_file=lp if has_input else self.path("nosuchinput.s"),
+                                                    return_mode=gd.MatchingReturnMode.matched_addrs_list,
+                                                    matching_mode=gd.MatchingSearchMode.all_finds)).perform_matching()
+            except Exception:  # noqa
+                pass
+
+        def polluting():    # the decoy itself misbehaving under a seeded change is not a verdict of this check
+            try:
+                self.MasterOfPuppets(gd.MatchConfig(pattern_pathstr=rp, input_file=lp, return_mode=gd.MatchingReturnMode.matched_addrs_list,
+                                                    matching_mode=gd.MatchingSearchMode.all_finds)).perform_matching()
+            except Exception:  # noqa
+                pass
+
+        # alternate the order, so that the real operation directly follows a failed one every other time
+        for step in ((failing, polluting) if (n // len(self.FAILING_DECOYS)) % 2 == 0 else (polluting, failing)):
+            step()
 
     def mop(self, rule_doc, *, macros=None, input_file="", binary=False, rule_path=None):
         gd = self.gd
